@@ -42,6 +42,10 @@ def replay_form(p: dict) -> int:
         from .validc import replay_rejection
 
         return replay_rejection(p)
+    if p.get("kind") == "expr_purity":
+        from .exprcheck import replay_expr_purity
+
+        return replay_expr_purity(p)
     if p.get("kind") == "permflag":
         from .kernelprops import replay_permflag
 
